@@ -1,0 +1,52 @@
+//go:build verif
+
+package version
+
+import (
+	"github.com/lindb/lindb/pkg/bufioutil"
+)
+
+// This file only exists under the build tag "verif" (add-only seam for the external verification
+// harness). Nothing here changes behaviour while no hook is installed.
+
+type verifSyncFaultWriter struct {
+	verifFaultWriter
+}
+
+// Sync asks the fault injector with op "manifestSync". A non-nil error models fsync(2) reporting an
+// I/O error: the buffered record HAS been handed to the kernel (bufio flush performed, so the bytes are
+// in the file and survive the process), the durability barrier is not reached and the error is
+// returned to the caller.
+func (w *verifSyncFaultWriter) Sync() error {
+	w.h("manifestSync", w.path, true)
+	if ferr := w.fault("manifestSync", w.path); ferr != nil {
+		err := w.BufioWriter.Flush()
+		w.h("manifestSync", w.path, false)
+		if err != nil {
+			return err
+		}
+		return ferr
+	}
+	err := w.BufioWriter.Sync()
+	w.h("manifestSync", w.path, false)
+	return err
+}
+
+// VerifSetFSHookWithSyncFaults is VerifSetFSHookWithFaults whose fault injector is also asked for the
+// sync of a manifest record (op "manifestSync", after the before-call of the hook).
+// Build tag verif only; VerifSetFSHook(nil) restores production.
+func VerifSetFSHookWithSyncFaults(h VerifFSHook, fault VerifFault) {
+	VerifSetFSHook(h)
+	if h == nil || fault == nil {
+		return
+	}
+	newBufferWriterFunc = func(fileName string) (bufioutil.BufioWriter, error) {
+		h("manifestCreate", fileName, true)
+		w, err := bufioutil.NewBufioEntryWriter(fileName)
+		h("manifestCreate", fileName, false)
+		if err != nil {
+			return nil, err
+		}
+		return &verifSyncFaultWriter{verifFaultWriter{verifWriter: verifWriter{BufioWriter: w, path: fileName, h: h}, fault: fault}}, nil
+	}
+}
